@@ -114,12 +114,27 @@ def run(prog, rep):
             raise AnalysisBroken('anchor vanished: %s::NextLine' % cls)
         f = fs[0]
         rep.touch(f)
-        pushes = []
-        for n in f.walk():
-            if n['k'] == 'CXXMemberCallExpr' and (f.callee(n) or {}).get('n') == 'push_back' and len(n['c']) > 1:
-                v = strip(n['c'][1])
-                if v is not None and 'cv' in v:
-                    pushes.append(v['cv'])
+        def pushed(g, depth=0):
+            """character constants appended (push_back / append of a literal), in source order, following small repo helpers"""
+            out = []
+            for n in g.walk():
+                if n['k'] == 'CXXMemberCallExpr' and (g.callee(n) or {}).get('n') == 'push_back' and len(n['c']) > 1:
+                    v = strip(n['c'][1])
+                    if v is not None and 'cv' in v:
+                        out.append(v['cv'])
+                elif n['k'] in ('CXXMemberCallExpr', 'CXXOperatorCallExpr') and (g.callee(n) or {}).get('n') in ('append', 'operator+=') and len(n['c']) > 1:
+                    for x in g.walk(n['c'][-1]):
+                        if x['k'] == 'StringLiteral' and x.get('s') is not None:
+                            out.extend(ord(ch) for ch in x['s'])
+                        elif x['k'] == 'CharacterLiteral' and 'cv' in x:
+                            out.append(x['cv'])
+                elif n['k'] == 'CallExpr' and depth < 2:
+                    c = g.callee(n)
+                    h = prog.funcs.get(c['id']) if c is not None and c.get('repo') else None
+                    if h is not None and h.body is not None and h.relfile == g.relfile:
+                        out.extend(pushed(h, depth + 1))
+            return out
+        pushes = pushed(f)
         if pushes == [13, 10, 13, 10]:
             rep.ok('R10.4', cls, sample={'writer': cls, 'terminators': 'CR LF (header), CR LF (row)'})
         else:
